@@ -246,9 +246,13 @@ End LitRange.
 
 (** ** every literal of a parsed tree is in range (generic in the table) *)
 Section ParseRange.
-  Variable cfg : lexcfg.
+  Variable I : Type.
+  Variable lx : lexer I.
   Variable tbl : table.
-  Hypothesis lit_ok : forall s v r, literal_number cfg s = Some (v, r) -> inr v.
+  Hypothesis lit_ok : forall s v r, lx_number lx s = Some (v, r) -> inr v.
+  Hypothesis lvalue_ok : forall (expr : I -> pres aexpr I) s x i r,
+    (forall s e r, expr s = PMatch e r -> lits_inr e) ->
+    lx_lvalue lx expr s = PMatch (x, i) r -> match i with Some ie => lits_inr ie | None => True end.
 
   Definition cap_ok (c : cap) : Prop :=
     match c with
@@ -256,7 +260,7 @@ Section ParseRange.
     | VT _ i => match i with Some ie => lits_inr ie | None => True end
     | VZ z => inr z
     end.
-  Definition rec_ok (rec : nat -> str -> pres aexpr) : Prop :=
+  Definition rec_ok (rec : nat -> I -> pres aexpr I) : Prop :=
     forall minp s e r, rec minp s = PMatch e r -> lits_inr e.
 
   Lemma build_ok c args e : Forall cap_ok args -> build c args = Some e -> lits_inr e.
@@ -278,7 +282,7 @@ Section ParseRange.
       intros H; injection H as <-. constructor; [|apply IH; reflexivity].
       eapply Forall_forall; [exact Hall|]. eapply nth_error_In; eassumption.
   Qed.
-  Lemma finish_ok r caps rest e rest' : Forall cap_ok caps -> finish r caps rest = PMatch e rest' -> lits_inr e.
+  Lemma finish_ok r caps rest e rest' : Forall cap_ok caps -> finish I r caps rest = PMatch e rest' -> lits_inr e.
   Proof.
     intros Hall. unfold finish.
     destruct (select (rev caps) (rargs r)) as [args|] eqn:Es; [|congruence].
@@ -288,6 +292,106 @@ Section ParseRange.
     apply Forall_rev. assumption.
   Qed.
 
+  Lemma run_elems_ok rec els : rec_ok rec -> forall caps s caps' r, Forall cap_ok caps ->
+    run_elems I lx rec els caps s = PMatch caps' r -> Forall cap_ok caps'.
+  Proof.
+    intros Hrec. induction els as [|el els IH]; intros caps s caps' r Hall; cbn [run_elems].
+    - intros H; injection H as <- _. assumption.
+    - destruct el.
+      + apply IH. assumption.
+      + destruct (lx_tok lx t s); [apply IH; assumption|congruence].
+      + destruct (lx_not lx cls s); [apply IH; assumption|congruence].
+      + destruct (rec O s) as [e s'| | |] eqn:Er; try congruence.
+        apply IH. constructor; [|assumption]. cbn. eapply Hrec; eassumption.
+      + destruct (lx_lvalue lx (rec O) s) as [[x i] s'| | |] eqn:El; try congruence.
+        apply IH. constructor; [|assumption]. cbn.
+        eapply lvalue_ok; [|eassumption]. intros s0 e0 r0. apply Hrec.
+      + destruct (lx_number lx s) as [[z s']|] eqn:En; [|congruence].
+        apply IH. constructor; [|assumption]. cbn. eapply lit_ok; eassumption.
+  Qed.
+
+  Lemma run_pre_ok rec prec r s e rest : rec_ok rec -> run_pre I lx rec prec r s = PMatch e rest -> lits_inr e.
+  Proof.
+    intros Hrec. unfold run_pre. destruct (rk r); try congruence.
+    - destruct (run_elems I lx rec (rels r) [] s) as [caps s1| | |] eqn:Ee; try congruence.
+      destruct (rec _ s1) as [e1 s2| | |] eqn:Er; try congruence.
+      apply finish_ok. constructor; [cbn; eapply Hrec; eassumption|].
+      eapply run_elems_ok; [exact Hrec| |eassumption]. constructor.
+    - destruct (run_elems I lx rec (rels r) [] s) as [caps s1| | |] eqn:Ee; try congruence.
+      apply finish_ok. eapply run_elems_ok; [exact Hrec| |eassumption]. constructor.
+  Qed.
+  Lemma run_post_ok rec prec r left s e rest : rec_ok rec -> lits_inr left ->
+    run_post I lx rec prec r left s = PMatch e rest -> lits_inr e.
+  Proof.
+    intros Hrec Hl. unfold run_post. destruct (rk r) as [la ra| | |]; try congruence.
+    - destruct la, ra; try congruence;
+      (destruct (run_elems I lx rec (rels r) [VE left] s) as [caps s1| | |] eqn:Ee; try congruence;
+       destruct (rec _ s1) as [e1 s2| | |] eqn:Er; try congruence;
+       apply finish_ok; constructor; [cbn; eapply Hrec; eassumption|];
+       eapply run_elems_ok; [exact Hrec| |eassumption]; constructor; [exact Hl|constructor]).
+    - destruct (run_elems I lx rec (rels r) [VE left] s) as [caps s1| | |] eqn:Ee; try congruence.
+      apply finish_ok. eapply run_elems_ok; [exact Hrec| |eassumption]. constructor; [exact Hl|constructor].
+  Qed.
+
+  Lemma first_pre_level_ok rec prec rs s e rest : rec_ok rec ->
+    first_pre_level I lx rec prec rs s = PMatch e rest -> lits_inr e.
+  Proof.
+    intros Hrec. induction rs as [|r rs IH]; cbn [first_pre_level]; [congruence|].
+    destruct (is_pre r); [|exact IH].
+    destruct (run_pre I lx rec prec r s) as [e1 r1| | |] eqn:E; try congruence; [|exact IH].
+    intros H; injection H as <- _. eapply run_pre_ok; eassumption.
+  Qed.
+  Lemma first_pre_ok rec lv : rec_ok rec -> forall prec s e rest,
+    first_pre I lx rec prec lv s = PMatch e rest -> lits_inr e.
+  Proof.
+    intros Hrec. induction lv as [|rs lv IH]; intros prec s e rest; cbn [first_pre]; [congruence|].
+    destruct (first_pre_level I lx rec prec rs s) as [e1 r1| | |] eqn:E; try congruence; [|apply IH].
+    intros H; injection H as <- _. eapply first_pre_level_ok; eassumption.
+  Qed.
+  Lemma first_post_level_ok rec prec rs left s e rest : rec_ok rec -> lits_inr left ->
+    first_post_level I lx rec prec rs left s = PMatch e rest -> lits_inr e.
+  Proof.
+    intros Hrec Hl. induction rs as [|r rs IH]; cbn [first_post_level]; [congruence|].
+    destruct (is_pre r); [exact IH|].
+    destruct (run_post I lx rec prec r left s) as [e1 r1| | |] eqn:E; try congruence; [|exact IH].
+    intros H; injection H as <- _. eapply run_post_ok; eassumption.
+  Qed.
+  Lemma first_post_ok rec minp lv : rec_ok rec -> forall prec left s e rest, lits_inr left ->
+    first_post I lx rec minp prec lv left s = PMatch e rest -> lits_inr e.
+  Proof.
+    intros Hrec. induction lv as [|rs lv IH]; intros prec left s e rest Hl; cbn [first_post]; [congruence|].
+    destruct (minp <=? prec)%nat; [|apply IH; assumption].
+    destruct (first_post_level I lx rec prec rs left s) as [e1 r1| | |] eqn:E; try congruence; [|apply IH; assumption].
+    intros H; injection H as <- _. eapply first_post_level_ok; eassumption.
+  Qed.
+  Lemma infix_loop_ok rec n : rec_ok rec -> forall minp left s e rest, lits_inr left ->
+    infix_loop I lx tbl rec n minp left s = PMatch e rest -> lits_inr e.
+  Proof.
+    intros Hrec. induction n as [|n IH]; intros minp left s e rest Hl; cbn [infix_loop]; [congruence|].
+    destruct (first_post I lx rec minp 0 tbl left s) as [e1 s1| | |] eqn:E; try congruence.
+    intros H. eapply IH; [|exact H]. eapply first_post_ok; [exact Hrec|exact Hl|exact E].
+  Qed.
+
+  Theorem parse_ok : forall fuel, rec_ok (parse I lx tbl fuel).
+  Proof.
+    induction fuel as [|f IH]; intros minp s e r; cbn [parse]; [congruence|].
+    destruct (first_pre I lx (parse I lx tbl f) 0 tbl s) as [e1 rest| | |] eqn:E; try congruence.
+    apply infix_loop_ok; [exact IH|]. eapply first_pre_ok; eassumption.
+  Qed.
+
+  Theorem parse_opt_ok s e : parse_opt I lx tbl s = Some e -> lits_inr e.
+  Proof.
+    unfold parse_opt, parse_full. destruct (lx_empty lx s).
+    - intros H; injection H as <-. cbn. unfold inr, M63. lia.
+    - destruct (parse I lx tbl _ 0 _) as [e1 rest| | |] eqn:E; try congruence.
+      destruct (lx_empty lx (lx_ws lx rest)); [|congruence].
+      intros H; injection H as <-. eapply parse_ok; eassumption.
+  Qed.
+End ParseRange.
+
+(** the character-level [lvalue] only returns index expressions produced by [expression] *)
+Section CharLvalue.
+  Variable cfg : lexcfg.
   Lemma lvalue_ok expr s x i r : (forall s e r, expr s = PMatch e r -> lits_inr e) ->
     lvalue cfg expr s = PMatch (x, i) r -> match i with Some ie => lits_inr ie | None => True end.
   Proof.
@@ -301,108 +405,14 @@ Section ParseRange.
     - intros H; injection H as <- <- _. exact I.
   Qed.
 
-  Lemma run_elems_ok rec els : rec_ok rec -> forall caps s caps' r, Forall cap_ok caps ->
-    run_elems cfg rec els caps s = PMatch caps' r -> Forall cap_ok caps'.
-  Proof.
-    intros Hrec. induction els as [|el els IH]; intros caps s caps' r Hall; cbn [run_elems].
-    - intros H; injection H as <- _. assumption.
-    - destruct el.
-      + apply IH. assumption.
-      + destruct (drop_prefix t s); [apply IH; assumption|congruence].
-      + destruct s as [|c s']; [apply IH; assumption|].
-        destruct (in_class cls c); [congruence|apply IH; assumption].
-      + destruct (rec O s) as [e s'| | |] eqn:Er; try congruence.
-        apply IH. constructor; [|assumption]. cbn. eapply Hrec; eassumption.
-      + destruct (lvalue cfg (rec O) s) as [[x i] s'| | |] eqn:El; try congruence.
-        apply IH. constructor; [|assumption]. cbn.
-        eapply lvalue_ok; [|eassumption]. intros s0 e0 r0. apply Hrec.
-      + destruct (literal_number cfg s) as [[z s']|] eqn:En; [|congruence].
-        apply IH. constructor; [|assumption]. cbn. eapply lit_ok; eassumption.
-  Qed.
-
-  Lemma run_pre_ok rec prec r s e rest : rec_ok rec -> run_pre cfg rec prec r s = PMatch e rest -> lits_inr e.
-  Proof.
-    intros Hrec. unfold run_pre. destruct (rk r); try congruence.
-    - destruct (run_elems cfg rec (rels r) [] s) as [caps s1| | |] eqn:Ee; try congruence.
-      destruct (rec _ s1) as [e1 s2| | |] eqn:Er; try congruence.
-      apply finish_ok. constructor; [cbn; eapply Hrec; eassumption|].
-      eapply run_elems_ok; [exact Hrec| |eassumption]. constructor.
-    - destruct (run_elems cfg rec (rels r) [] s) as [caps s1| | |] eqn:Ee; try congruence.
-      apply finish_ok. eapply run_elems_ok; [exact Hrec| |eassumption]. constructor.
-  Qed.
-  Lemma run_post_ok rec prec r left s e rest : rec_ok rec -> lits_inr left ->
-    run_post cfg rec prec r left s = PMatch e rest -> lits_inr e.
-  Proof.
-    intros Hrec Hl. unfold run_post. destruct (rk r) as [la ra| | |]; try congruence.
-    - destruct la, ra; try congruence;
-      (destruct (run_elems cfg rec (rels r) [VE left] s) as [caps s1| | |] eqn:Ee; try congruence;
-       destruct (rec _ s1) as [e1 s2| | |] eqn:Er; try congruence;
-       apply finish_ok; constructor; [cbn; eapply Hrec; eassumption|];
-       eapply run_elems_ok; [exact Hrec| |eassumption]; constructor; [exact Hl|constructor]).
-    - destruct (run_elems cfg rec (rels r) [VE left] s) as [caps s1| | |] eqn:Ee; try congruence.
-      apply finish_ok. eapply run_elems_ok; [exact Hrec| |eassumption]. constructor; [exact Hl|constructor].
-  Qed.
-
-  Lemma first_pre_level_ok rec prec rs s e rest : rec_ok rec ->
-    first_pre_level cfg rec prec rs s = PMatch e rest -> lits_inr e.
-  Proof.
-    intros Hrec. induction rs as [|r rs IH]; cbn [first_pre_level]; [congruence|].
-    destruct (is_pre r); [|exact IH].
-    destruct (run_pre cfg rec prec r s) as [e1 r1| | |] eqn:E; try congruence; [|exact IH].
-    intros H; injection H as <- _. eapply run_pre_ok; eassumption.
-  Qed.
-  Lemma first_pre_ok rec lv : rec_ok rec -> forall prec s e rest,
-    first_pre cfg rec prec lv s = PMatch e rest -> lits_inr e.
-  Proof.
-    intros Hrec. induction lv as [|rs lv IH]; intros prec s e rest; cbn [first_pre]; [congruence|].
-    destruct (first_pre_level cfg rec prec rs s) as [e1 r1| | |] eqn:E; try congruence; [|apply IH].
-    intros H; injection H as <- _. eapply first_pre_level_ok; eassumption.
-  Qed.
-  Lemma first_post_level_ok rec prec rs left s e rest : rec_ok rec -> lits_inr left ->
-    first_post_level cfg rec prec rs left s = PMatch e rest -> lits_inr e.
-  Proof.
-    intros Hrec Hl. induction rs as [|r rs IH]; cbn [first_post_level]; [congruence|].
-    destruct (is_pre r); [exact IH|].
-    destruct (run_post cfg rec prec r left s) as [e1 r1| | |] eqn:E; try congruence; [|exact IH].
-    intros H; injection H as <- _. eapply run_post_ok; eassumption.
-  Qed.
-  Lemma first_post_ok rec minp lv : rec_ok rec -> forall prec left s e rest, lits_inr left ->
-    first_post cfg rec minp prec lv left s = PMatch e rest -> lits_inr e.
-  Proof.
-    intros Hrec. induction lv as [|rs lv IH]; intros prec left s e rest Hl; cbn [first_post]; [congruence|].
-    destruct (minp <=? prec)%nat; [|apply IH; assumption].
-    destruct (first_post_level cfg rec prec rs left s) as [e1 r1| | |] eqn:E; try congruence; [|apply IH; assumption].
-    intros H; injection H as <- _. eapply first_post_level_ok; eassumption.
-  Qed.
-  Lemma infix_loop_ok rec n : rec_ok rec -> forall minp left s e rest, lits_inr left ->
-    infix_loop cfg tbl rec n minp left s = PMatch e rest -> lits_inr e.
-  Proof.
-    intros Hrec. induction n as [|n IH]; intros minp left s e rest Hl; cbn [infix_loop]; [congruence|].
-    destruct (first_post cfg rec minp 0 tbl left s) as [e1 s1| | |] eqn:E; try congruence.
-    intros H. eapply IH; [|exact H]. eapply first_post_ok; [exact Hrec|exact Hl|exact E].
-  Qed.
-
-  Theorem parse_ok : forall fuel, rec_ok (parse cfg tbl fuel).
-  Proof.
-    induction fuel as [|f IH]; intros minp s e r; cbn [parse]; [congruence|].
-    destruct (first_pre cfg (parse cfg tbl f) 0 tbl s) as [e1 rest| | |] eqn:E; try congruence.
-    apply infix_loop_ok; [exact IH|]. eapply first_pre_ok; eassumption.
-  Qed.
-
-  Theorem parse_opt_ok s e : parse_opt cfg tbl s = Some e -> lits_inr e.
-  Proof.
-    unfold parse_opt, parse_full. destruct s as [|c s].
-    - intros H; injection H as <-. cbn. unfold inr, M63. lia.
-    - destruct (parse cfg tbl _ 0 _) as [e1 rest| | |] eqn:E; try congruence.
-      destruct (skip_ws cfg rest); [|congruence].
-      intros H; injection H as <-. eapply parse_ok; eassumption.
-  Qed.
-End ParseRange.
+End CharLvalue.
 
 (** the parser of brush (regenerated table and lexical classes) only produces i64 literals *)
 Theorem parse_lits_in_range s e : arith_parse s = Some e -> lits_inr e.
 Proof.
-  apply parse_opt_ok. intros s0 v r. apply literal_number_range; vm_compute; congruence.
+  apply parse_opt_ok.
+  - intros s0 v r. apply literal_number_range; vm_compute; congruence.
+  - intros expr s0 x i r. apply lvalue_ok.
 Qed.
 
 (** … so every value [$(( ))] can print is an i64, for every expression, environment and fuel *)
